@@ -236,6 +236,7 @@ static std::string cmdProducers(const std::vector<std::string>& a) {
 	long blockMs = atol(a.at(5).c_str());
 	HookCtl ctl;
 	ctl.sched = parseInts(a.at(6));
+	bool mixedTypes = a.size() > 7 && a[7] == "mixed";
 	JW w;
 	w.beginObj().key("trace").beginArr();
 	std::string exc;
@@ -256,10 +257,13 @@ static std::string cmdProducers(const std::vector<std::string>& a) {
 		std::atomic<int> started(0);
 		std::vector<std::thread> producers;
 		for (int p = 0; p < nprod; p++) {
-			producers.emplace_back([&interp, p, nper, &started]() {
+			producers.emplace_back([&interp, p, nper, &started, mixedTypes]() {
 				started++;
 				for (int s = 0; s < nper; s++) {
-					interp.receive(Event("p." + std::to_string(p) + "." + std::to_string(s), Event::EXTERNAL));
+					// mixedTypes: the embedder hands over events of every public Event::Type (receive() must queue them all)
+					Event::Type ty = Event::EXTERNAL;
+					if (mixedTypes) ty = ((p + s) % 3 == 0 ? Event::EXTERNAL : ((p + s) % 3 == 1 ? Event::INTERNAL : Event::PLATFORM));
+					interp.receive(Event("p." + std::to_string(p) + "." + std::to_string(s), ty));
 				}
 			});
 		}
